@@ -126,6 +126,14 @@ class Executor(object):
         # two free objects so that queries always have partners
         self.objs.append(Entry("PL", G.Plane(B.pt((0, 0, F(1, 2))), B.vec((1, -1, 2))), ("PL", (F(0), F(0), F(1, 2)), (F(1), F(-1), F(2))), owns=False, label="free plane"))
         self.objs.append(Entry("L", G.Line(B.pt((1, 0, -1)), B.vec((0, 2, 1))), ("L", (F(1), F(0), F(-1)), (F(0), F(2), F(1))), owns=False, label="free line"))
+        # objects along a negative coordinate axis with a direction of length exactly 1 (nothing to normalise, sign to fix)
+        ax = sum(int(c * 2) for c in pcoords[0]) % 3
+        d = [F(0)] * 3
+        d[ax] = F(-1)
+        d = tuple(d)
+        p0 = (F(1), F(2), F(-1, 2))
+        self.objs.append(Entry("L", G.Line(B.pt(p0), B.pt(X.add(p0, d))), ("L", p0, d), owns=False, label="free line along a negative axis, unit direction"))
+        self.objs.append(Entry("H", G.HalfLine(B.pt(p0), B.vec(d)), ("H", p0, d), owns=False, label="free half-line along a negative axis, unit direction"))
 
     # ---- models
     def P(self, i):
